@@ -374,14 +374,20 @@ def tame(ctx, f, q1, q2):
 
 
 def is_normal(ctx, q):
-    """distinct categories, distinct quantity types, non-zero exponents, every unit a unit of its type"""
+    """the Lean predicate `Normal`: distinct categories, items of one quantity type carry one unit, no zero
+    exponent, no unit whose exponents cancel, every unit a unit of its category's quantity type"""
     try:
         qts = [ctx.db.GetCategoryQuantityType(c) for c, _u, _e in q]
     except Exception:
         return False
-    if len(set(qts)) != len(q) or len({c for c, _u, _e in q}) != len(q) or len({u for _c, u, _e in q}) != len(q):
+    if len({c for c, _u, _e in q}) != len(q):
         return False
-    return all(int(e) != 0 and u in ctx.units.get(qt, []) for (c, u, e), qt in zip(q, qts))
+    unit_of, total = {}, {}
+    for (c, u, e), qt in zip(q, qts):
+        if int(e) == 0 or u not in ctx.units.get(qt, []) or unit_of.setdefault(qt, u) != u:
+            return False
+        total[u] = total.get(u, 0) + int(e)
+    return all(t != 0 for t in total.values())
 
 
 def buildable(spec):
